@@ -64,6 +64,8 @@ func main() {
 		os.Exit(cmdReplay(os.Args[2:]))
 	case "selftest":
 		os.Exit(cmdSelftest(os.Args[2:]))
+	case "atomics":
+		os.Exit(cmdAtomics(os.Args[2:]))
 	default:
 		usage()
 	}
